@@ -3,6 +3,8 @@ compiler and report the exception class (with its base classes), the innermost r
 output object was left behind; run the compile CLI in a subprocess."""
 from __future__ import annotations
 
+import contextlib
+import io
 import json
 import os
 import shutil
@@ -35,7 +37,7 @@ def _outcome(c: Any, e: BaseException | None) -> dict:
     mro = [k.__name__ for k in type(e).__mro__]
     site = _site(e)
     if isinstance(e, RecursionError):
-        site = site.split(":")[0] + ":*"       # the frame in which the limit trips is arbitrary
+        site = "nesting"                       # the frame in which the limit trips is arbitrary
     return {"error": type(e).__name__, "mro": mro, "documented": any(d in mro for d in DOCUMENTED), "site": site,
             "msg": str(e)[:200],
             "partial_output": any(x is not None for x in (c.routine_ops, c.routine_infos, c.named_coroutines, c.source_map))}
@@ -47,10 +49,12 @@ def compile_one(arg: dict) -> dict:
     c = ExplorerScriptSsbCompiler(arg.get("perf", PERF_VAR), arg.get("lookup", []))
     old = sys.getrecursionlimit()
     # the worker raises the limit for its own purposes; the property is about a standard interpreter
-    sys.setrecursionlimit(PY_DEFAULT_RECURSION_LIMIT + 60)
+    sys.setrecursionlimit(PY_DEFAULT_RECURSION_LIMIT + 10)
     try:
         try:
-            c.compile(arg["text"], arg.get("file", "/nonexistent/main.exps"))
+            # ANTLR's ConsoleErrorListener stays registered and prints every syntax error
+            with contextlib.redirect_stderr(io.StringIO()), contextlib.redirect_stdout(io.StringIO()):
+                c.compile(arg["text"], arg.get("file", "/nonexistent/main.exps"))
         except BaseException as e:  # noqa
             if isinstance(e, (KeyboardInterrupt, SystemExit)):
                 raise
